@@ -33,9 +33,14 @@ pub struct Trial {
   pub k: usize,
   pub policy: Policy,
   pub sched_seed: u64,
+  /// the launch runs in a process of its own (`agsim c13-launch`): whatever has process lifetime
+  /// in ast-grep (statics, lazily initialised tables, thread-locals of the main thread) is as
+  /// empty as at a real start-up, not as the earlier launches of this worker left it
+  #[serde(default)]
+  pub fresh_process: bool,
 }
 
-#[derive(Clone, Debug, PartialEq, Default)]
+#[derive(Clone, Debug, PartialEq, Default, Serialize, Deserialize)]
 pub struct Obs {
   /// Ok(sorted canonical records + error count) or Err(message of the failed command)
   pub scan: Option<Result<(Vec<String>, Option<usize>), String>>,
@@ -77,8 +82,53 @@ fn root_dir() -> PathBuf {
   cli_run::scratch_root().join("w")
 }
 
+/// `agsim c13-launch IN OUT`: one launch in this (new) process; IN = {world, trial, with_tests}
+pub fn launch_main(input: &str, output: &str) -> i32 {
+  cli_run::quiet_panics();
+  hashseam::set_per_thread(true);
+  let Ok(text) = std::fs::read_to_string(input) else { return 2 };
+  let Ok(v) = serde_json::from_str::<Value>(&text) else { return 2 };
+  let (Ok(w), Ok(mut t)) = (serde_json::from_value::<CliWorld>(v["world"].clone()), serde_json::from_value::<Trial>(v["trial"].clone())) else { return 2 };
+  t.fresh_process = false;
+  let o = observe(&w, &t, v["with_tests"].as_bool().unwrap_or(false));
+  let _ = std::fs::remove_dir_all(cli_run::scratch_root());
+  match std::fs::write(output, serde_json::to_vec(&o).unwrap_or_default()) {
+    Ok(()) => 0,
+    Err(_) => 2,
+  }
+}
+
+fn observe_in_new_process(w: &CliWorld, t: &Trial, with_tests: bool) -> Obs {
+  let dir = cli_run::scratch_root();
+  let _ = std::fs::create_dir_all(&dir);
+  let (inp, outp) = (dir.join("launch-in.json"), dir.join("launch-out.json"));
+  let _ = std::fs::remove_file(&outp);
+  // (a harness error, exit 2: the driver reports a panic of the simulation itself as such)
+  let fail = |why: String| -> Obs { panic!("launch in a new process failed: {why}") };
+  if let Err(e) = std::fs::write(&inp, serde_json::to_vec(&json!({"world": w, "trial": t, "with_tests": with_tests})).unwrap_or_default()) {
+    return fail(e.to_string());
+  }
+  let exe = match std::env::current_exe() {
+    Ok(e) => e,
+    Err(e) => return fail(e.to_string()),
+  };
+  let st = std::process::Command::new(exe).arg("c13-launch").arg(&inp).arg(&outp).stdin(std::process::Stdio::null()).stdout(std::process::Stdio::null()).stderr(std::process::Stdio::null()).status();
+  match st {
+    Ok(s) if s.success() => {}
+    Ok(s) => return fail(format!("exit status {s}")),
+    Err(e) => return fail(e.to_string()),
+  }
+  match std::fs::read(&outp).map_err(|e| e.to_string()).and_then(|b| serde_json::from_slice::<Obs>(&b).map_err(|e| e.to_string())) {
+    Ok(o) => o,
+    Err(e) => fail(e),
+  }
+}
+
 /// One "process launch" of the project: scan, scan -U, test -U, test.
 pub fn observe(w: &CliWorld, t: &Trial, with_tests: bool) -> Obs {
+  if t.fresh_process {
+    return observe_in_new_process(w, t, with_tests);
+  }
   let root = root_dir();
   w.materialize(&root);
   let mut o = Obs::default();
@@ -252,7 +302,7 @@ fn check_single(o: &Obs) -> Option<(String, String)> {
 }
 
 fn canonical_trial(seed: u64) -> Trial {
-  Trial { incremental: false, perm_seed: None, hash_seed: mix64(seed ^ 0xC0), k: 1, policy: Policy::Canonical, sched_seed: 0 }
+  Trial { incremental: false, perm_seed: None, hash_seed: mix64(seed ^ 0xC0), k: 1, policy: Policy::Canonical, sched_seed: 0, fresh_process: false }
 }
 
 fn gen_trial(seed: u64, i: usize) -> Trial {
@@ -266,6 +316,8 @@ fn gen_trial(seed: u64, i: usize) -> Trial {
     k: *r.pick(&[1usize, 1, 2, 3, 4, 8]),
     policy: Policy::draw(&mut r),
     sched_seed: r.next_u64(),
+    // two launches per world get a process of their own
+    fresh_process: i % 6 == 4,
   }
 }
 
@@ -281,7 +333,7 @@ fn apply_perm(w: &CliWorld, t: &Trial) -> CliWorld {
 
 fn gen_world(seed: u64) -> CliWorld {
   let mut r = Rng::stream(seed, "world");
-  cli_world::gen_world(&mut r, &GenOpts { max_files: 8, allow_special: false, with_tests: true, fix_heavy: false, order_sensitive_rules: true, hard_links: false, injections: true })
+  cli_world::gen_world(&mut r, &GenOpts { max_files: 8, allow_special: false, with_tests: true, fix_heavy: false, order_sensitive_rules: true, hard_links: false, injections: true, lang_globs: true })
 }
 
 fn verdict(w: &CliWorld, ct: &Trial, t: &Trial) -> Option<(String, String)> {
@@ -381,6 +433,9 @@ impl Simulation for C13Sim {
     if w.injections > 0 {
       r.count("probe:worlds_with_language_injections_in_sgconfig");
     }
+    if w.lang_globs.as_ref().is_some_and(|g| !g.is_empty()) {
+      r.count("probe:worlds_with_language_globs_in_sgconfig");
+    }
     if c.fixed_tree.iter().any(|(p, b)| w.files.iter().any(|f| &f.path == p && &f.bytes() != b)) {
       r.count("probe:worlds_where_fixes_changed_files");
     }
@@ -396,6 +451,9 @@ impl Simulation for C13Sim {
         r.steps += o.steps;
         r.count(&format!("policy:{}", t.policy.name()));
         r.count(if t.perm_seed.is_some() { "policy:permuted-order" } else { "policy:same-order-new-hash-seed" });
+        if t.fresh_process {
+          r.count("policy:launch-in-a-process-of-its-own");
+        }
         if t.incremental && i % 3 == 0 {
           r.count("probe:incremental_snapshot_update_compared_with_from_scratch");
         }
@@ -473,7 +531,7 @@ impl Simulation for C13Sim {
   }
   fn describe(&self) -> Describe {
     Describe {
-      rule: "a case = (generated project with inter-dependent local/global utilities incl. shadowing and references inside any/all inside relational rules, chained transformations, constraints sharing variables, rewriters calling rewriters, rewriters reading matched and transformed variables of the enclosing rule, randomly generated rule trees and global utilities, rule tests; 0-8 source files incl. html with script blocks that spell one language two ways and js/ts template strings declared as css/html documents by `languageInjections`) observed by one canonical launch and 12 further launches, each with a fresh hash seed per simulated thread (getrandom seam), a random permutation of rule dirs / file names / documents per file / top-level sections / keys of utils, transform, constraints / rewriter list, thread count in {1,2,3,4,8} and a seeded schedule. One launch = scan --json=stream, scan -U on a fresh tree, and for every third launch test -U followed by test, half of those as an incremental history (an earlier revision of rules and test files is snapshotted first). Compared: finding multisets, exit status, acceptance, rewritten tree, Applied-N line, test verdicts, snapshot bytes. non-trivial = the launch produced findings; distinct = (world, permutation seed, hash seed, thread count, scheduler trace hash) not seen before".into(),
+      rule: "a case = (generated project with inter-dependent local/global utilities incl. shadowing and references inside any/all inside relational rules, chained transformations, constraints sharing variables, rewriters calling rewriters, rewriters reading matched and transformed variables of the enclosing rule, randomly generated rule trees and global utilities, rule tests; 0-8 source files incl. html with script blocks that spell one language two ways and js/ts template strings declared as css/html documents by `languageInjections`) with a `languageGlobs` table (empty, or *.view.ts read as JavaScript), observed by one canonical launch and 12 further launches, two of them in a process of their own (nothing with process lifetime survives from earlier launches), each with a fresh hash seed per simulated thread (getrandom seam), a random permutation of rule dirs / file names / documents per file / top-level sections / keys of utils, transform, constraints / rewriter list, thread count in {1,2,3,4,8} and a seeded schedule. One launch = scan --json=stream, scan -U on a fresh tree, and for every third launch test -U followed by test, half of those as an incremental history (an earlier revision of rules and test files is snapshotted first). Compared: finding multisets, exit status, acceptance, rewritten tree, Applied-N line, test verdicts, snapshot bytes. non-trivial = the launch produced findings; distinct = (world, permutation seed, hash seed, thread count, scheduler trace hash) not seen before".into(),
       assumptions: vec![
         "duplicate rule ids / util ids are never generated (their resolution is legitimately order-defined); record order in the output is never compared".into(),
         "the hash seam controls std RandomState (HashMap/HashSet/DashMap); ahash or other hashers with their own entropy are not used by the crates involved".into(),
